@@ -6,7 +6,12 @@
 //	lookup <k> <typ> <name> <patterns>            -> <pattern> | none
 //	route <stanzaNS> <name> <patterns>            -> h=<pattern> | router | nop
 //	children <k> <typ> <patterns> <toks> <cons>   -> <pattern>=<toks read>/…
+//	direct <sep|eof> <k> <typ> <patterns> <toks> <cons> <errs> -> …|err=<failed calls>|w=<handler writes received>
+//	iqdirect <sep|eof> <typ> <patterns> <toks> <c> -> h=…@<payload>=<toks> | fallback@<to>/<from>/<id> | nothing | err
 //	register <patterns> <pattern> <nil>           -> ok | panic
+//
+// <typ> of children / direct / iqdirect is what the specification (specHdr) reads from the
+// stanza's own, i.e. unqualified, attributes; the model reads the start element itself.
 package c14
 
 import (
@@ -64,6 +69,7 @@ type recorder struct {
 	funcs    []marker // handlers registered through the Func variants
 	lastFunc int
 	errs     map[int]bool // which invoked registered handlers (by ordinal) return an error
+	write    bool         // every invoked handler writes one token naming its ordinal to the encoder it was given
 }
 
 type call struct {
@@ -72,6 +78,7 @@ type call struct {
 	gen     int
 	toks    []xml.Token
 	eof     bool
+	val     *hdr // the stanza value the handler was handed (type, id, to, from)
 }
 
 type marker struct {
@@ -80,8 +87,9 @@ type marker struct {
 	gen int // which registration attempt created this handler (histories)
 }
 
-func (m marker) read(t xml.TokenReader) error {
+func (m marker) read(t xmlstream.TokenReadEncoder) error {
 	c := 0
+	ord := m.rec.k
 	if m.rec.k < len(m.rec.cons) {
 		c = m.rec.cons[m.rec.k]
 	}
@@ -102,6 +110,11 @@ func (m marker) read(t xml.TokenReader) error {
 		}
 	}
 	m.rec.calls = append(m.rec.calls, cl)
+	if m.rec.write {
+		if err := t.EncodeToken(xml.CharData(fmt.Sprintf("W%d", ord))); err != nil && ret == nil {
+			ret = err
+		}
+	}
 	return ret
 }
 
@@ -110,16 +123,24 @@ func (m marker) HandleXMPP(t xmlstream.TokenReadEncoder, start *xml.StartElement
 }
 func (m marker) HandleIQ(iq stanza.IQ, t xmlstream.TokenReadEncoder, start *xml.StartElement) error {
 	err := m.read(t)
-	if start != nil && len(m.rec.calls) > 0 {
-		m.rec.calls[len(m.rec.calls)-1].payload = start.Name
+	if len(m.rec.calls) > 0 {
+		cl := &m.rec.calls[len(m.rec.calls)-1]
+		if start != nil {
+			cl.payload = start.Name
+		}
+		cl.val = &hdr{string(iq.Type), iq.ID, iq.To.String(), iq.From.String()}
 	}
 	return err
 }
 func (m marker) HandleMessage(msg stanza.Message, t xmlstream.TokenReadEncoder) error {
-	return m.read(t)
+	err := m.read(t)
+	m.rec.calls[len(m.rec.calls)-1].val = &hdr{string(msg.Type), msg.ID, msg.To.String(), msg.From.String()}
+	return err
 }
 func (m marker) HandlePresence(p stanza.Presence, t xmlstream.TokenReadEncoder) error {
-	return m.read(t)
+	err := m.read(t)
+	m.rec.calls[len(m.rec.calls)-1].val = &hdr{string(p.Type), p.ID, p.To.String(), p.From.String()}
+	return err
 }
 
 func optionOf(m marker) mux.Option {
@@ -335,6 +356,11 @@ func (c *ctx) lookup(ps []Pat, kind, typ string, n xml.Name, class string) {
 	if got == nil {
 		r.Fail("most-specific", "nil-handler", lines, "lookup returned a nil handler")
 	}
+	if kind != "t" && ok != (gp != nil) {
+		// the second result says whether a registered handler was found
+		obs += "/ok=" + common.B(ok)
+		r.Fail("most-specific", "ok-flag/"+kind, lines, fmt.Sprintf("the lookup returned ok=%v with the handler %s", ok, obs))
+	}
 	r.Line(line, obs)
 	want := best(ps, kind, typ, n)
 	r.Case(line, want != nil, fmt.Sprintf("%s/lookup-%s/%v", class, kind, want != nil))
@@ -370,13 +396,32 @@ func (c *ctx) route(ps []Pat, stanzaNS string, n xml.Name, class string) {
 	r.Case(line, obs != "nop", class+"/route/"+strings.SplitN(obs, "=", 2)[0])
 }
 
-func effectiveType(kind string, st xml.StartElement) string {
-	if kind == "m" {
-		m, _ := stanza.NewMessage(st)
-		return string(m.Type)
+// hdr is what the multiplexer may learn from a stanza's start element.
+type hdr struct{ typ, id, to, from string }
+
+// specHdr is the specification of stanza.NewIQ / NewMessage / NewPresence as far as the
+// multiplexer depends on them, written independently of their attribute loop: only the
+// stanza's OWN attributes count, and those are the unqualified ones (Namespaces in XML 6.2: a
+// prefixed attribute is another attribute, whatever its prefix is bound to).  A message's type
+// is one of the five declared ones, anything else (or no attribute) means normal; IQ and
+// presence types are taken verbatim.  (Two unqualified attributes of one name are not
+// well-formed XML; the direct runs contain them, the later one counts.)
+func specHdr(kind string, attrs []xml.Attr) hdr {
+	own := map[string]string{}
+	for _, a := range attrs {
+		if a.Name.Space == "" && (a.Value != "" || a.Name.Local == "type" || a.Name.Local == "id") {
+			own[a.Name.Local] = a.Value
+		}
 	}
-	p, _ := stanza.NewPresence(st)
-	return string(p.Type)
+	h := hdr{typ: own["type"], id: own["id"], to: own["to"], from: own["from"]}
+	if kind == "m" {
+		switch h.typ {
+		case "normal", "chat", "error", "groupchat", "headline":
+		default:
+			h.typ = "normal"
+		}
+	}
+	return h
 }
 
 // framedReader hands out a fixed token list.  framing "sep" reports io.EOF on a separate call
@@ -389,6 +434,8 @@ type framedReader struct {
 	i       int
 	framing string
 	wrote   int
+	out     []xml.Token // tokens written through EncodeToken
+	other   int         // writes through Encode / EncodeElement
 }
 
 func (f *framedReader) Token() (xml.Token, error) {
@@ -402,9 +449,71 @@ func (f *framedReader) Token() (xml.Token, error) {
 	}
 	return t, nil
 }
-func (f *framedReader) EncodeToken(xml.Token) error                       { f.wrote++; return nil }
-func (f *framedReader) Encode(interface{}) error                          { f.wrote++; return nil }
-func (f *framedReader) EncodeElement(interface{}, xml.StartElement) error { f.wrote++; return nil }
+func (f *framedReader) EncodeToken(t xml.Token) error {
+	f.wrote++
+	f.out = append(f.out, xml.CopyToken(t))
+	return nil
+}
+func (f *framedReader) Encode(interface{}) error                          { f.wrote++; f.other++; return nil }
+func (f *framedReader) EncodeElement(interface{}, xml.StartElement) error { f.wrote++; f.other++; return nil }
+
+// handlerWrites splits what was written into the ordinals the marker handlers wrote (one
+// CharData token "W<k>" each) and everything else.
+func (f *framedReader) handlerWrites() (ords []int, rest []xml.Token) {
+	for _, t := range f.out {
+		if cd, ok := t.(xml.CharData); ok && len(cd) > 1 && cd[0] == 'W' {
+			var k int
+			if _, err := fmt.Sscan(string(cd[1:]), &k); err == nil {
+				ords = append(ords, k)
+				continue
+			}
+		}
+		rest = append(rest, t)
+	}
+	return ords, rest
+}
+
+// fallbackReply recognises the default reply to an unhandled IQ among the tokens written: one
+// iq element of type error holding one error element of type cancel with the condition
+// service-unavailable.  It returns the reply's own header.
+func fallbackReply(out []xml.Token) (hdr, bool) {
+	if len(out) < 6 {
+		return hdr{}, false
+	}
+	iq, ok := out[0].(xml.StartElement)
+	if !ok || iq.Name.Local != "iq" {
+		return hdr{}, false
+	}
+	// exactly one error element of type cancel with the condition service-unavailable; whatever
+	// else a reply may legally carry (the request's payload, a text, an application condition) is
+	// tolerated
+	depth, errs, conds, inErr := 0, 0, 0, false
+	for i, t := range out {
+		switch tt := t.(type) {
+		case xml.StartElement:
+			switch {
+			case depth == 1 && tt.Name.Local == "error":
+				errs++
+				inErr = specHdr("i", tt.Attr).typ == "cancel"
+			case depth == 2 && inErr && tt.Name == (xml.Name{Space: "urn:ietf:params:xml:ns:xmpp-stanzas", Local: "service-unavailable"}):
+				conds++
+			}
+			depth++
+		case xml.EndElement:
+			depth--
+			if depth == 1 {
+				inErr = false
+			}
+			if depth == 0 && i != len(out)-1 {
+				return hdr{}, false
+			}
+		}
+	}
+	if depth != 0 || errs != 1 || conds != 1 {
+		return hdr{}, false
+	}
+	return specHdr("i", iq.Attr), true
+}
 
 func encInts(v []int) string {
 	cs := make([]string, len(v))
@@ -466,7 +575,7 @@ func (c *ctx) dispatch(ps []Pat, stanzaXML string, cons []int, errs []int, mode 
 	if st.Name.Local == "presence" {
 		kind = "p"
 	}
-	typ := effectiveType(kind, st)
+	typ := specHdr(kind, st.Attr).typ
 	stanzaToks := toks[:len(toks)-1]
 	var line string
 	if mode == "session" {
@@ -476,10 +585,11 @@ func (c *ctx) dispatch(ps []Pat, stanzaXML string, cons []int, errs []int, mode 
 		class += "-" + mode
 	}
 	lines := []string{r.Prop + " " + line, "#stanza " + common.HexS(stanzaXML)}
-	rec := &recorder{cons: cons, errs: map[int]bool{}}
+	rec := &recorder{cons: cons, errs: map[int]bool{}, write: mode != "session"}
 	for _, e := range errs {
 		rec.errs[e] = true
 	}
+	var wroteOrds []int
 	// the direct runs over a "sep" reader register through the Func variants of the options
 	m, p := buildFn(ns, ps, rec, mode == "sep")
 	if p != "" {
@@ -504,7 +614,12 @@ func (c *ctx) dispatch(ps []Pat, stanzaXML string, cons []int, errs []int, mode 
 			errObs = "|err=other"
 			res.Err = herr
 		}
-		if fr.wrote > 0 {
+		// every invoked handler writes one token to the encoder it was handed: all of them must
+		// arrive, in the order of the calls, at the encoder HandleXMPP was given
+		var rest []xml.Token
+		wroteOrds, rest = fr.handlerWrites()
+		errObs += "|w=" + encInts(wroteOrds)
+		if len(rest) > 0 || fr.other > 0 {
 			errObs += "|wrote"
 		}
 	}
@@ -563,7 +678,21 @@ func (c *ctx) dispatch(ps []Pat, stanzaXML string, cons []int, errs []int, mode 
 		fail("most-specific", key, fmt.Sprintf("%d handlers ran, want %d", len(rec.calls), len(want)))
 		return
 	}
+	if mode != "session" {
+		okW := len(wroteOrds) == len(rec.calls)
+		for i, k := range wroteOrds {
+			okW = okW && k == i
+		}
+		if !okW {
+			fail("encoder", "handler-writes", fmt.Sprintf("the %d invoked handlers each wrote a token to their encoder, the encoder of HandleXMPP received those of %v", len(rec.calls), wroteOrds))
+		}
+	}
+	wantVal := specHdr(kind, st.Attr)
 	for i, cl := range rec.calls {
+		// the stanza value handed to the handler is the stanza's own header
+		if cl.val != nil && *cl.val != wantVal {
+			fail("full-stanza", "stanza-value", fmt.Sprintf("call %d was handed the stanza value %+v, the stanza's own attributes say %+v", i, *cl.val, wantVal))
+		}
 		if cl.pat != *want[i] {
 			fail("most-specific", "child-handler", fmt.Sprintf("call %d went to %s, want %s", i, cl.pat.Enc(), want[i].Enc()))
 		}
@@ -640,13 +769,18 @@ func (c *ctx) iqDefault(ps []Pat, typ string, n xml.Name, class string) {
 // runs, which payload start element it is given and what it can read (the rest of the IQ's
 // content, never the IQ's end element), or the fallback reply / nothing / an error.
 func (c *ctx) iqDirect(ps []Pat, typ, inner string, cons int, framing, class string) {
-	r := c.r
-	ns := c08.NSClient
 	ta := ` type="` + typ + `"`
 	if typ == "" {
 		ta = ""
 	}
-	sx := `<iq` + ta + ` id="d1" from="a@example.org/r">` + inner + `</iq>`
+	c.iqDirectX(ps, `<iq`+ta+` id="d1" from="a@example.org/r">`+inner+`</iq>`, cons, framing, class)
+}
+
+// iqDirectX is iqDirect on a complete IQ stanza: the type, the id and the addresses are those
+// of the stanza's own attributes (specHdr).
+func (c *ctx) iqDirectX(ps []Pat, sx string, cons int, framing, class string) {
+	r := c.r
+	ns := c08.NSClient
 	toks := c08.Tokens(ns, []byte(sx+"</stream:stream>"))
 	if len(toks) < 3 {
 		return
@@ -655,10 +789,12 @@ func (c *ctx) iqDirect(ps []Pat, typ, inner string, cons int, framing, class str
 	if !ok {
 		return
 	}
+	req := specHdr("i", st.Attr)
+	typ := req.typ
 	stanzaToks := toks[:len(toks)-1]
 	line := strings.Join([]string{"iqdirect", framing, field(typ), encPats(ps), common.EncToks(stanzaToks), fmt.Sprint(cons)}, " ")
-	lines := []string{r.Prop + " " + line, "#inner " + common.HexS(inner)}
-	rec := &recorder{cons: []int{cons}}
+	lines := []string{r.Prop + " " + line, "#iq " + common.HexS(sx)}
+	rec := &recorder{cons: []int{cons}, write: true}
 	m, p := buildFn(ns, ps, rec, framing == "sep")
 	if p != "" {
 		r.Line(line, "BUILD-PANIC")
@@ -673,17 +809,26 @@ func (c *ctx) iqDirect(ps []Pat, typ, inner string, cons int, framing, class str
 		return
 	}
 	obs := "nothing"
+	ords, written := fr.handlerWrites()
+	reply, isReply := fallbackReply(written)
 	switch {
 	case len(rec.calls) > 0:
 		cl := rec.calls[0]
 		obs = "h=" + cl.pat.Enc() + "@" + encName(cl.payload) + "=" + common.EncToks(cl.toks)
+		if len(ords) != 1 || ords[0] != 0 || len(written) > 0 || fr.other > 0 {
+			obs += "|WRITES"
+			r.Fail("encoder", "iq-handler-writes", lines, fmt.Sprintf("the handler wrote one token to its encoder, the encoder of HandleXMPP received %v and %d other tokens", ords, len(written)+fr.other))
+		}
 	case herr != nil:
 		obs = "err"
+	case isReply && reply.typ == "error" && fr.other == 0:
+		// the default reply: addressed back to the sender, with the request's id
+		obs = "fallback@" + hx(reply.to) + "/" + hx(reply.from) + "/" + hx(reply.id)
 	case fr.wrote > 0:
-		obs = "fallback"
+		obs = "wrote"
 	}
 	r.Line(line, obs)
-	r.Case(line, len(rec.calls) > 0, class+"/iqdirect-"+framing+"/"+strings.SplitN(obs, "=", 2)[0])
+	r.Case(line, len(rec.calls) > 0, class+"/iqdirect-"+framing+"/"+strings.FieldsFunc(obs+"=", func(c rune) bool { return c == '=' || c == '@' })[0])
 	// the specification: the first child element is the payload; the most specific pattern of
 	// the IQ's type for its name; the handler reads the content after the payload's start tag
 	var inTok []xml.Token
@@ -713,14 +858,19 @@ func (c *ctx) iqDirect(ps []Pat, typ, inner string, cons int, framing, class str
 		if cons < len(wantToks) {
 			wantToks = wantToks[:cons]
 		}
+		if v := rec.calls[0].val; v != nil && *v != req {
+			r.Fail("full-stanza", "stanza-value", lines, fmt.Sprintf("the handler was handed the IQ value %+v, the stanza's own attributes say %+v", *v, req))
+		}
 		if rec.calls[0].payload != ps0.Name {
 			r.Fail("full-stanza", "iq-payload-start", lines, fmt.Sprintf("the handler was given the start element %v, the payload is %v", rec.calls[0].payload, ps0.Name))
 		}
 		if common.EncToks(rec.calls[0].toks) != common.EncToks(wantToks) {
 			r.Fail("full-stanza", "iq-view", lines, fmt.Sprintf("the handler read %s, want %s", common.EncToks(rec.calls[0].toks), common.EncToks(wantToks)))
 		}
-	case want == nil && request && obs != "fallback":
-		r.Fail("defaults", "request-unanswered", lines, fmt.Sprintf("unhandled %s IQ: observed %s, want one service-unavailable error", typ, obs))
+	case want == nil && request && !strings.HasPrefix(obs, "fallback@"):
+		r.Fail("defaults", "request-unanswered", lines, fmt.Sprintf("unhandled %s IQ (to=%q from=%q): observed %s, want one service-unavailable error", typ, req.to, req.from, obs))
+	case want == nil && request && (reply.to != req.from || reply.from != req.to || reply.id != req.id):
+		r.Fail("defaults", "reply-misaddressed", lines, fmt.Sprintf("unhandled %s IQ id=%q to=%q from=%q: the error reply has id=%q to=%q from=%q", typ, req.id, req.to, req.from, reply.id, reply.to, reply.from))
 	case want == nil && !request && obs != "nothing":
 		r.Fail("defaults", "reply-answered", lines, fmt.Sprintf("unhandled %s IQ: observed %s, want nothing", typ, obs))
 	}
@@ -1055,11 +1205,11 @@ var typesOf = map[string][]string{
 // attrType is the stanza type a message / presence with the given type attribute ("" = no
 // attribute) has according to stanza.NewMessage / NewPresence.
 func attrType(kind, attr string) string {
-	st := xml.StartElement{Name: xml.Name{Space: c08.NSClient, Local: "message"}}
+	var as []xml.Attr
 	if attr != "" {
-		st.Attr = []xml.Attr{{Name: xml.Name{Local: "type"}, Value: attr}}
+		as = []xml.Attr{{Name: xml.Name{Local: "type"}, Value: attr}}
 	}
-	return effectiveType(kind, st)
+	return specHdr(kind, as).typ
 }
 
 func genStanza(rnd *common.Rand, local, typ string) (string, int) {
@@ -1070,6 +1220,15 @@ func genStanza(rnd *common.Rand, local, typ string) (string, int) {
 	}
 	if rnd.Chance(1, 2) {
 		sb.WriteString(` id="s1"`)
+	}
+	if rnd.Chance(1, 4) {
+		// foreign attributes named like the stanza's own
+		sb.WriteString(` xmlns:e="` + []string{"urn:ext", c08.NSClient}[rnd.Intn(2)] + `"`)
+		for _, a := range []string{"type", "id", "to", "from"} {
+			if rnd.Chance(1, 2) {
+				sb.WriteString(` e:` + a + `="` + []string{"chat", "unavailable", "error", "", "@@"}[rnd.Intn(5)] + `"`)
+			}
+		}
 	}
 	sb.WriteString(">")
 	n := rnd.Intn(5)
@@ -1314,6 +1473,110 @@ func Run(r *common.Run) error {
 			}
 			for _, qn := range []xml.Name{{}, {Space: c08.NSClient, Local: "message"}, {Space: c08.NSServer, Local: "presence"}, {Space: "urn:a", Local: "iq"}} {
 				c.lookup(ps, kind, typ, qn, "own-names")
+			}
+		}
+	}
+
+	// the stanza's own attributes: the type that selects the patterns (and, for the default IQ
+	// reply, the id and the addresses) comes from the UNQUALIFIED attributes of the start element
+	// only.  Every own type (absent / declared / unknown) x a foreign attribute named type (absent,
+	// before, after the own one; in a foreign namespace or in the stanza's own namespace bound to
+	// a prefix) x foreign id / to / from (also with values that are not addresses), with patterns
+	// registered for the own type AND for the foreign attribute's value.
+	foreignNS := []string{"urn:ext", c08.NSClient}
+	for _, kind := range []string{"m", "p"} {
+		local := map[string]string{"m": "message", "p": "presence"}[kind]
+		owns := []string{"", typesOf[kind][1], "xx", typesOf[kind][4]}
+		for oi, own := range owns {
+			for fi, ft := range []string{"", typesOf[kind][1], typesOf[kind][2], typesOf[kind][0], "error"} {
+				for pos := 0; pos < 3; pos++ {
+					if ft == "" && fi+pos > 0 {
+						continue
+					}
+					if r.Quick() && (oi+fi+pos)%2 == 1 && ft != "" && own != "" {
+						continue
+					}
+					fns := foreignNS[(oi+fi+pos)%2]
+					ownA, forA := "", ""
+					if own != "" {
+						ownA = ` type="` + own + `"`
+					}
+					if fi > 0 {
+						forA = ` e:type="` + ft + `"`
+					}
+					extra := []string{"", ` id="s1"`, ` e:id="s2" id="s1"`, ` e:to="not an address@@" to="b@example.net"`, ` e:from="@@" xml:lang="en"`}[(oi+2*fi+pos)%5]
+					attrs := ` xmlns:e="` + fns + `"`
+					switch pos {
+					case 0:
+						attrs += forA + ownA + extra
+					case 1:
+						attrs += ownA + forA + extra
+					default:
+						attrs += extra + ownA + forA
+					}
+					eff := attrType(kind, own)
+					var ps []Pat
+					for _, t := range []string{eff, ft, own, attrType(kind, ft)} {
+						for _, nm := range []xml.Name{{}, {Space: "urn:a", Local: "x"}} {
+							np := Pat{Kind: kind, Typ: t, Name: nm}
+							dup := false
+							for _, q := range ps {
+								dup = dup || q == np
+							}
+							if !dup {
+								ps = append(ps, np)
+							}
+						}
+					}
+					for _, inner := range []string{"", `<x xmlns="urn:a"/>`, `<y xmlns="urn:b"/><x xmlns="urn:a">t</x>`} {
+						c.children(ps, "<"+local+attrs+">"+inner+"</"+local+">", []int{9, 2, 9}, "own-attrs")
+					}
+				}
+			}
+		}
+	}
+	// the default reply to an unhandled IQ, over every type x the addresses of the request
+	// (absent, only one, different, EQUAL: an entity may query its own address) x with / without
+	// id x foreign attributes named type / from / to: a request is answered exactly once, the
+	// reply goes back to the sender with the request's id; a reply is never answered
+	addrs := []string{"", "a@example.org/r", "b@example.net", "a@example.org"}
+	for ti, typ := range typesOf["i"] {
+		for ai, to := range addrs {
+			for bi, from := range addrs {
+				for _, id := range []string{"d1", ""} {
+					if r.Quick() && id == "" && (ti+ai+bi)%3 != 0 {
+						continue
+					}
+					attrs := ""
+					if typ != "" {
+						attrs += ` type="` + typ + `"`
+					}
+					foreign := []string{"", ` xmlns:e="urn:ext" e:type="result"`, ` xmlns:e="jabber:client" e:type="get" e:from="c@example.com"`, ` xmlns:e="urn:ext" e:to="@@" e:id="zz"`}[(ti+ai+2*bi)%4]
+					if (ai+bi)%2 == 0 {
+						attrs = foreign + attrs
+					}
+					if id != "" {
+						attrs += ` id="` + id + `"`
+					}
+					if to != "" {
+						attrs += ` to="` + to + `"`
+					}
+					if from != "" {
+						attrs += ` from="` + from + `"`
+					}
+					if (ai+bi)%2 == 1 {
+						attrs += foreign
+					}
+					sx := `<iq` + attrs + `><x xmlns="urn:a"/></iq>`
+					fr := []string{"sep", "eof"}[(ti+ai+bi)%2]
+					// no pattern at all / only patterns that do not match (other type, other name, the type a
+					// foreign attribute names) / a matching one
+					c.iqDirectX(nil, sx, 0, fr, "iq-addresses")
+					c.iqDirectX([]Pat{{Kind: "i", Typ: typesOf["i"][(ti+1)%len(typesOf["i"])], Name: xml.Name{}}, {Kind: "i", Typ: typ, Name: xml.Name{Space: "urn:b"}}}, sx, 1, fr, "iq-addresses")
+					if id != "" {
+						c.iqDirectX([]Pat{{Kind: "i", Typ: typ, Name: xml.Name{Local: "x"}}, {Kind: "i", Typ: "result", Name: q}, {Kind: "i", Typ: "get", Name: q}}, sx, 2, fr, "iq-addresses")
+					}
+				}
 			}
 		}
 	}
@@ -1635,17 +1898,23 @@ func (c *ctx) replay(lines []string) error {
 			}
 			c.hist(unfield(f[2]), ops, "replay")
 		case "iqdirect":
-			if len(f) != 7 || i+1 >= len(lines) || !strings.HasPrefix(lines[i+1], "#inner ") {
+			if len(f) != 7 || i+1 >= len(lines) {
 				continue
 			}
 			ps, err := decPats(f[4])
 			if err != nil {
 				return err
 			}
-			in, _ := common.UnHex(strings.TrimPrefix(lines[i+1], "#inner "))
 			var cn int
 			fmt.Sscan(f[6], &cn)
-			c.iqDirect(ps, unfield(f[3]), string(in), cn, f[2], "replay")
+			switch {
+			case strings.HasPrefix(lines[i+1], "#iq "):
+				sx, _ := common.UnHex(strings.TrimPrefix(lines[i+1], "#iq "))
+				c.iqDirectX(ps, string(sx), cn, f[2], "replay")
+			case strings.HasPrefix(lines[i+1], "#inner "):
+				in, _ := common.UnHex(strings.TrimPrefix(lines[i+1], "#inner "))
+				c.iqDirect(ps, unfield(f[3]), string(in), cn, f[2], "replay")
+			}
 		case "iqdefault":
 			if len(f) != 5 {
 				continue
@@ -1820,6 +2089,140 @@ func Facts(repo string) (string, error) {
 		sb.WriteString("def cascadeTable : Option (List CascadeRow) := some [\n" + strings.Join(rows, ",\n") + "]\n\n")
 	} else {
 		sb.WriteString("def cascadeTable : Option (List CascadeRow) := none\n\n")
+	}
+	// ---- the header the routers read from the start element ------------------------------
+	// every attribute list of length <= 2 over a universe of own and foreign type / id / to /
+	// from attributes, sent as an empty message / presence (an IQ with one payload) to a
+	// multiplexer holding the bare wildcard of every candidate type: the type is that of the
+	// pattern whose handler runs, id and addresses are those of the stanza value it is handed
+	xmlNS := "http://www.w3.org/XML/1998/namespace"
+	probeAttrs := []xml.Attr{
+		{Name: xml.Name{Local: "type"}, Value: "chat"}, {Name: xml.Name{Local: "type"}, Value: "unavailable"}, {Name: xml.Name{Local: "type"}, Value: ""},
+		{Name: xml.Name{Space: "urn:ext", Local: "type"}, Value: "error"}, {Name: xml.Name{Space: c08.NSClient, Local: "type"}, Value: "subscribe"},
+		{Name: xml.Name{Space: xmlNS, Local: "lang"}, Value: "en"},
+		{Name: xml.Name{Local: "id"}, Value: "i1"}, {Name: xml.Name{Space: "urn:ext", Local: "id"}, Value: "i2"},
+		{Name: xml.Name{Local: "to"}, Value: "a@example.org"}, {Name: xml.Name{Space: "urn:ext", Local: "from"}, Value: "b@example.org"}, {Name: xml.Name{Local: "from"}, Value: "c@example.org/r"},
+	}
+	lists := [][]xml.Attr{nil}
+	for _, a := range probeAttrs {
+		lists = append(lists, []xml.Attr{a})
+	}
+	for _, a := range probeAttrs {
+		for _, b := range probeAttrs {
+			// (two unqualified attributes of one name are not well-formed XML: which one counts is
+			// the implementation's business)
+			if a.Name.Space == "" && b.Name.Space == "" && a.Name.Local == b.Name.Local {
+				continue
+			}
+			lists = append(lists, []xml.Attr{a, b})
+		}
+	}
+	candTypes := []string{"", "normal", "chat", "unavailable", "error", "subscribe", "en", "i1", "i2"}
+	leanAttrs := func(as []xml.Attr) string {
+		var f []string
+		for _, a := range as {
+			f = append(f, fmt.Sprintf("⟨⟨%s, %s⟩, %s⟩", leanStr(a.Name.Space), leanStr(a.Name.Local), leanStr(a.Value)))
+		}
+		return "[" + strings.Join(f, ", ") + "]"
+	}
+	leanHdr := func(h hdr) string {
+		return fmt.Sprintf("⟨%s, %s, %s, %s⟩", leanStr(h.typ), leanStr(h.id), leanStr(h.to), leanStr(h.from))
+	}
+	rows = nil
+	ok = true
+	for _, kind := range []string{"i", "m", "p"} {
+		local := map[string]string{"i": "iq", "m": "message", "p": "presence"}[kind]
+		for li, as := range lists {
+			var seen []hdr
+			pn := common.Recover(func() {
+				var opts []mux.Option
+				for _, t := range candTypes {
+					t := t
+					switch kind {
+					case "i":
+						opts = append(opts, mux.IQFunc(stanza.IQType(t), xml.Name{}, func(iq stanza.IQ, _ xmlstream.TokenReadEncoder, _ *xml.StartElement) error {
+							seen = append(seen, hdr{t, iq.ID, iq.To.String(), iq.From.String()})
+							return nil
+						}))
+					case "m":
+						opts = append(opts, mux.MessageFunc(stanza.MessageType(t), xml.Name{}, func(v stanza.Message, _ xmlstream.TokenReadEncoder) error {
+							seen = append(seen, hdr{t, v.ID, v.To.String(), v.From.String()})
+							return nil
+						}))
+					default:
+						opts = append(opts, mux.PresenceFunc(stanza.PresenceType(t), xml.Name{}, func(v stanza.Presence, _ xmlstream.TokenReadEncoder) error {
+							seen = append(seen, hdr{t, v.ID, v.To.String(), v.From.String()})
+							return nil
+						}))
+					}
+				}
+				m := mux.New(c08.NSClient, opts...)
+				name := xml.Name{Space: c08.NSClient, Local: local}
+				start := xml.StartElement{Name: name, Attr: append([]xml.Attr(nil), as...)}
+				toks := []xml.Token{xml.EndElement{Name: name}}
+				if kind == "i" || li%2 == 1 {
+					// IQs carry a payload; every second message / presence has a child, so that both the
+					// per-child path and the empty-stanza path of forChildren are probed
+					toks = []xml.Token{xml.StartElement{Name: q}, xml.EndElement{Name: q}, xml.EndElement{Name: name}}
+				}
+				_ = m.HandleXMPP(&framedReader{toks: toks, framing: "sep"}, &start)
+			})
+			if pn != "" || len(seen) != 1 {
+				ok = false
+				continue
+			}
+			rows = append(rows, fmt.Sprintf("  ⟨%s, %s, %s⟩", leanKind(kind), leanAttrs(as), leanHdr(seen[0])))
+		}
+	}
+	sb.WriteString("/-- (kind, attributes of the start element, the type under which the multiplexer dispatched the stanza and the id /\n    to / from of the stanza value handed to the handler) -/\n")
+	if ok {
+		sb.WriteString("def hdrTable : Option (List HdrRow) := some [\n" + strings.Join(rows, ",\n") + "]\n\n")
+	} else {
+		sb.WriteString("def hdrTable : Option (List HdrRow) := none\n\n")
+	}
+	// ---- the default reply ----------------------------------------------------------------
+	// an IQ of every type x every pair of addresses (absent, different, equal) x with / without id,
+	// sent to a multiplexer without patterns: the header of the one error reply written, or none
+	rows = nil
+	ok = true
+	for _, t := range typesOf["i"] {
+		for _, to := range []string{"", "a@example.org/r", "b@example.net"} {
+			for _, from := range []string{"", "a@example.org/r", "b@example.net"} {
+				for _, id := range []string{"", "d1"} {
+					req := hdr{t, id, to, from}
+					var as []xml.Attr
+					for _, kv := range [][2]string{{"type", t}, {"id", id}, {"to", to}, {"from", from}} {
+						if kv[1] != "" {
+							as = append(as, xml.Attr{Name: xml.Name{Local: kv[0]}, Value: kv[1]})
+						}
+					}
+					name := xml.Name{Space: c08.NSClient, Local: "iq"}
+					start := xml.StartElement{Name: name, Attr: as}
+					fr := &framedReader{toks: []xml.Token{xml.StartElement{Name: q}, xml.EndElement{Name: q}, xml.EndElement{Name: name}}, framing: "sep"}
+					var herr error
+					pn := common.Recover(func() { herr = mux.New(c08.NSClient).HandleXMPP(fr, &start) })
+					rep := "none"
+					switch {
+					case pn != "" || herr != nil || fr.other > 0:
+						ok = false
+					case len(fr.out) == 0:
+					default:
+						h, isR := fallbackReply(fr.out)
+						if !isR {
+							ok = false
+						}
+						rep = "some " + leanHdr(h)
+					}
+					rows = append(rows, fmt.Sprintf("  ⟨%s, %s⟩", leanHdr(req), rep))
+				}
+			}
+		}
+	}
+	sb.WriteString("/-- (type, id, to, from of an IQ no pattern matches; the header of the service-unavailable error reply written) -/\n")
+	if ok {
+		sb.WriteString("def fallbackTable : Option (List FallbackRow) := some [\n" + strings.Join(rows, ",\n") + "]\n\n")
+	} else {
+		sb.WriteString("def fallbackTable : Option (List FallbackRow) := none\n\n")
 	}
 	sb.WriteString("end XmppModel.Generated.C14\n")
 	return sb.String(), nil
